@@ -300,6 +300,12 @@ class Interp:
             return AV({"list"}, elem=el)
         if isinstance(e, ast.Tuple):
             return AV({"tuple"})
+        if isinstance(e, ast.Set):
+            for x in e.elts:
+                self.ev(st, x, fn)
+            return AV({"other"})
+        if isinstance(e, ast.SetComp):
+            return AV({"other"})
         if isinstance(e, ast.JoinedStr):
             return AV({"str"})
         if isinstance(e, ast.IfExp):
@@ -674,6 +680,15 @@ class Interp:
                     and isinstance(e.args[0], (ast.Name, ast.Subscript)):
                 v = self.ev(st, e.args[0], fn)
                 tag = f"matches:{f.value.id}"
+                bad_ = v.atoms - {"str", "str0", "bytes", "bytes0"}
+                # (loop variables over the keys of a container are left out: what is known about keys comes from the extra-dict validator's own loop,
+                # which this interpreter follows in its for/raise form only -- no verdict is better than a wrong one)
+                loopvar = isinstance(e.args[0], ast.Name) and any(isinstance(x, (ast.For, ast.comprehension)) and any(isinstance(y, ast.Name) and y.id == e.args[0].id
+                                                                                                               for y in ast.walk(x.target)) for x in ast.walk(fn.node))
+                if bad_ and not loopvar and not getattr(self, "_match_reported", {}).get((fn.qualname, e.lineno, e.col_offset)):
+                    # re.Pattern.match(x) raises TypeError for anything but str / bytes (None included), whatever the outcome of the test
+                    self.__dict__.setdefault("_match_reported", {})[(fn.qualname, e.lineno, e.col_offset)] = True
+                    self.escape("TypeError", fn, e, f"pattern match applied to {v.only(bad_).describe()}")
                 if pol:
                     bad = v.atoms - {"str", "str0", "bytes", "bytes0"}
                     nv = v.only({"str", "str0", "bytes", "bytes0"})
@@ -846,8 +861,26 @@ class Interp:
                 if pol:
                     nv = nv.without({"dict0", "list0"})
                 return self.assign_expr(st, r, nv, fn)
+            # hashing: `x in {a, b}` / `x in <dict display>` raises TypeError for a list / dict value of x
+            if isinstance(r, (ast.Set, ast.Dict)) or (isinstance(r, ast.Call) and isinstance(r.func, ast.Name) and r.func.id in ("set", "frozenset", "dict")):
+                unhash = lv.atoms & {"list", "list0", "dict", "dict0"}
+                if unhash:
+                    self.escape("TypeError", fn, l, f"`in` on a set / dict hashes its left operand: unhashable {lv.only(unhash).describe()}")
             # x in [consts]
             okc, c = self.p.try_const(r, fn.module, fn.cls)
+            if not okc and isinstance(r, ast.Set):
+                ks_ = [self.p.try_const(k_, fn.module, fn.cls) for k_ in r.elts]
+                if ks_ and all(o_ for o_, _ in ks_):
+                    okc, c = True, [v_ for _, v_ in ks_]
+            if not okc and isinstance(r, ast.Name):
+                # a local table built once from a literal with constant keys / elements (`grammar = {EXACT: .., PREFIX: ..}; if x not in grammar`)
+                defs = [s_ for s_ in ast.walk(fn.node) if isinstance(s_, ast.Assign) and any(isinstance(t_, ast.Name) and t_.id == r.id for t_ in s_.targets)]
+                stores = [x_ for x_ in ast.walk(fn.node) if isinstance(x_, ast.Name) and x_.id == r.id and isinstance(x_.ctx, (ast.Store, ast.Del))]
+                if len(defs) == 1 and len(stores) == 1 and isinstance(defs[0].value, (ast.Dict, ast.List, ast.Tuple, ast.Set)):
+                    elts = defs[0].value.keys if isinstance(defs[0].value, ast.Dict) else defs[0].value.elts
+                    ks = [self.p.try_const(k_, fn.module, fn.cls) if k_ is not None else (False, None) for k_ in elts]
+                    if ks and all(o_ for o_, _ in ks):
+                        okc, c = True, [v_ for _, v_ in ks]
             if okc and isinstance(c, (list, tuple, set, frozenset)) and all(x is None or isinstance(x, (bool, int, str, bytes)) for x in c):
                 if pol:
                     nv = lv.with_vals(c)
@@ -1117,6 +1150,29 @@ class Interp:
         return e, []
 
     def _desugar_stmt(self, s):
+        # `x = next((E for T in IT if C), D)`  ==>  x = D; for T' in IT: if C': x = E'; break       (the first element of the generator, or the default)
+        if isinstance(s, ast.Assign) and len(s.targets) == 1 and isinstance(s.targets[0], ast.Name) and isinstance(s.value, ast.Call) and isinstance(s.value.func, ast.Name) \
+                and s.value.func.id == "next" and len(s.value.args) == 2 and not s.value.keywords and isinstance(s.value.args[0], ast.GeneratorExp) \
+                and len(s.value.args[0].generators) == 1 and not s.value.args[0].generators[0].is_async:
+            import copy
+            ge = s.value.args[0]
+            g = ge.generators[0]
+            ren = {x.id: self._fresh("g_" + x.id + "_") for x in ast.walk(g.target) if isinstance(x, ast.Name)}
+
+            class R(ast.NodeTransformer):
+                def visit_Name(self_, node):
+                    return ast.copy_location(ast.Name(id=ren.get(node.id, node.id), ctx=node.ctx), node)
+            tgt = R().visit(copy.deepcopy(g.target))
+            elt = R().visit(copy.deepcopy(ge.elt))
+            conds = [R().visit(copy.deepcopy(c)) for c in g.ifs]
+            name = s.targets[0].id
+            inner = [ast.Assign(targets=[ast.Name(id=name, ctx=ast.Store())], value=elt, type_comment=None), ast.Break()]
+            for c in reversed(conds):
+                inner = [ast.If(test=c, body=inner, orelse=[])]
+            first = ast.Assign(targets=[ast.Name(id=name, ctx=ast.Store())], value=s.value.args[1], type_comment=None)
+            loop = ast.For(target=tgt, iter=g.iter, body=inner, orelse=[], type_comment=None)
+            out = [ast.fix_missing_locations(ast.copy_location(first, s)), ast.fix_missing_locations(ast.copy_location(loop, s))]
+            return [y for x in out for y in self._desugar_stmt(x)]
         if isinstance(s, ast.Assign) and len(s.targets) == 1 and isinstance(s.targets[0], ast.Name) and self._pure(s.value) and self._boolish(s.value) \
                 and not (isinstance(s.value, ast.Constant)) and (self._has_quant(s.value) or isinstance(s.value, (ast.BoolOp, ast.Compare, ast.UnaryOp))):
             return self._assign_bool(s.targets[0].id, s.value, s)
